@@ -31,3 +31,18 @@ Definition run_auth5 (x : table * table * (bytes * bytes * bytes * bytes) * byte
 
 Definition run_perms (p : Z) : cv :=
   let q := uint32 p in CL [cvb (is_printable q); cvb (is_modifiable q); cvb (is_extractable q)].
+
+(* revision-6 password hash (Algorithm 2.B): (AES table, SHA-256 / -384 / -512 tables, password, salt, vector).
+   The 64-fold AES-CBC output E is represented by a surrogate: its first 16 bytes, then the call's key material, then
+   its last byte -- everything the algorithm reads from E except through the hash, and the hash tables are keyed by the
+   same surrogate.  Answers [K[:32]; rounds]. *)
+From PdfV Require Import Model.CryptR6.
+Definition run_r6 (x : table * (table * table * table) * (bytes * bytes * bytes)) : cv :=
+  let '(et, (t256, t384, t512), (pw, salt, vec)) := x in
+  let aes := fun k iv blk =>
+    let key := k ++ [-1] ++ iv ++ [-1] ++ blk in
+    let v := tbl_get key et in firstn 16 v ++ key ++ skipn 16 v in
+  match r6_password_rounds (fun d => tbl_get d t256) (fun d => tbl_get d t384) (fun d => tbl_get d t512) aes pw salt vec with
+  | Some (k, n) => CL [CB k; CZ n]
+  | None => CZ (-1)
+  end.
